@@ -3,7 +3,7 @@
    sequence; the documented loop, past-the-end behaviour, reset and clone follow
    for every kind and every count from the cursor laws. *)
 From Coq Require Import ZArith NArith QArith List Bool Lia.
-From MptV Require Import C19.IterModel C19.IterSpec C19.IterProofs C19.IterText.
+From MptV Require Import C19.IterModel C19.IterSpec C19.IterProofs C19.IterText C19.IterString.
 Import ListNotations.
 Local Open Scope N_scope.
 
@@ -19,7 +19,7 @@ Notation denoted := (denoted rnd).
 Definition inv (s : src) : Prop :=
   match s with
   | SLin m => inv_lin m | SFac m => inv_fac rnd m | SBnd m => inv_bnd m | SPol m => inv_pol rnd m
-  | SVal m => inv_val m | SStr _ => True | SBuf m => inv_buf m
+  | SVal m => inv_val m | SStr m => inv_str m | SBuf m => inv_buf m
   end.
 
 Lemma counted_abs s : nostr s = true -> counted (abs s) = true.
@@ -266,13 +266,65 @@ Proof.
   intros s c N E. pose proof (sim_clone s N) as H. rewrite E in H. destruct H as [-> H]. auto.
 Qed.
 
-(* ---- histories over both slots *)
+(* ---- one call of any kind, the text iterator included *)
+Lemma amatch_cls r : amatch (cls r) r.
+Proof.
+  unfold cls. destruct (Z.ltb_spec 0 r); [exact H|]. destruct (Z.eqb_spec r 0); [assumption|]. cbn. lia.
+Qed.
+
+Lemma s_read_counted c : counted c = true -> s_read c = c.
+Proof. destruct c; cbn; intros; try discriminate; reflexivity. Qed.
+
+Lemma gsim_value s : inv s ->
+  let (v, s') := it_value rnd s in
+  inv s' /\ abs s' = s_read (abs s) /\ vmatch v (s_value (abs s)).
+Proof.
+  intros I. destruct (nostr s) eqn:N.
+  - pose proof (sim_value s I N) as H. destruct (it_value rnd s) as [v s'].
+    destruct H as [I' [_ [A [VM _]]]]. rewrite (s_read_counted _ (counted_abs s N)). auto.
+  - destruct s as [m|m|m|m|m|m|m]; try discriminate. cbn [it_value inv] in *.
+    pose proof (str_value_sim rnd m I) as H. destruct (str_value m) as [v m']. exact H.
+Qed.
+
+Lemma gsim_advance s : inv s ->
+  let (r, s') := it_advance rnd s in
+  inv s' /\ exists a, s_advance (abs s) = (a, abs s') /\ amatch a r.
+Proof.
+  intros I. destruct (nostr s) eqn:N.
+  - pose proof (sim_advance s I N) as H. destruct (it_advance rnd s) as [r s'].
+    destruct H as [I' [_ [SA _]]]. split; [assumption|]. exists (cls r). split; [assumption|apply amatch_cls].
+  - destruct s as [m|m|m|m|m|m|m]; try discriminate. cbn [it_advance inv] in *.
+    pose proof (str_advance_sim m I) as H. destruct (str_advance m) as [r m']. exact H.
+Qed.
+
+Lemma gsim_reset s : inv s ->
+  let (r, s') := it_reset s in
+  inv s' /\ abs s' = s_reset (abs s) /\ (0 <= r)%Z.
+Proof.
+  intros I. destruct (nostr s) eqn:N.
+  - pose proof (sim_reset s I N) as H. destruct (it_reset s) as [r s']. destruct H as [I' [_ [A R]]]. auto.
+  - destruct s as [m|m|m|m|m|m|m]; try discriminate. cbn [it_reset inv] in *.
+    pose proof (str_reset_sim m I) as H. destruct (str_reset m) as [r m']. exact H.
+Qed.
+
+Lemma gsim_clone s : inv s ->
+  match it_clone s with
+  | Some c => inv c /\ s_clone (abs s) = Some (abs c)
+  | None => s_clone (abs s) = None
+  end.
+Proof.
+  intros I. destruct (nostr s) eqn:N.
+  - pose proof (sim_clone s N) as H. destruct (it_clone s) as [c|]; [|exact H]. destruct H as [-> H]. auto.
+  - destruct s as [m|m|m|m|m|m|m]; try discriminate. cbn [it_clone inv] in *. exact (str_clone_sim m I).
+Qed.
+
+(* ---- histories over both slots, every kind *)
 Definition prim (o : op * bool) : bool :=
   match fst o with OValue | OAdvance | OReset | OClone => true | _ => false end.
 Definition omatch (o : out) (x : sout) : Prop :=
   match o, x with
   | OutV v, SoV e _ => vmatch v e
-  | OutA r, SoA a => a = cls r
+  | OutA r, SoA a => amatch a r
   | OutR r, SoR => (0 <= r)%Z
   | OutK b, SoK b' => b = b'
   | OutNone, SoNone => True
@@ -280,13 +332,10 @@ Definition omatch (o : out) (x : sout) : Prop :=
   end.
 Definition srel (s : option src) (c : option sstate) : Prop :=
   match s, c with
-  | Some s, Some c => inv s /\ nostr s = true /\ abs s = c
+  | Some s, Some c => inv s /\ abs s = c
   | None, None => True
   | _, _ => False
   end.
-
-Lemma s_read_counted c : counted c = true -> s_read c = c.
-Proof. destruct c; cbn; intros; try discriminate; reflexivity. Qed.
 
 Lemma step_refines st cst o : srel (fst st) (fst cst) -> srel (snd st) (snd cst) -> prim o = true ->
   let (st', x) := mstep rnd st o in
@@ -298,19 +347,19 @@ Proof.
   assert (RC : srel (if upper then s1 else s0) (if upper then c1 else c0)) by now destruct upper.
   destruct (if upper then s1 else s0) as [s|], (if upper then c1 else c0) as [c|];
     cbn [srel] in RC; try contradiction; [|cbn; auto].
-  destruct RC as [I [N <-]].
+  destruct RC as [I <-].
   destruct o; cbn [prim fst] in P; try discriminate.
-  - pose proof (sim_value s I N) as H. destruct (it_value rnd s) as [v s'].
-    destruct H as [I' [N' [A [VM _]]]]. rewrite (s_read_counted _ (counted_abs s N)).
-    destruct upper; cbn [fst snd srel]; repeat split; auto.
-  - pose proof (sim_advance s I N) as H. destruct (it_advance rnd s) as [r s'].
-    destruct H as [I' [N' [SA _]]]. rewrite SA.
+  - pose proof (gsim_value s I) as H. destruct (it_value rnd s) as [v s'].
+    destruct H as [I' [A VM]]. rewrite <- A.
     destruct upper; cbn [fst snd srel omatch]; repeat split; auto.
-  - pose proof (sim_reset s I N) as H. destruct (it_reset s) as [r s'].
-    destruct H as [I' [N' [A R]]].
+  - pose proof (gsim_advance s I) as H. destruct (it_advance rnd s) as [r s'].
+    destruct H as [I' [a [SA AM]]]. rewrite SA.
     destruct upper; cbn [fst snd srel omatch]; repeat split; auto.
-  - pose proof (sim_clone s N) as H. destruct (it_clone s) as [c|].
-    + destruct H as [-> H]. rewrite H. cbn [fst snd srel omatch]. repeat split; auto.
+  - pose proof (gsim_reset s I) as H. destruct (it_reset s) as [r s'].
+    destruct H as [I' [A R]]. rewrite <- A.
+    destruct upper; cbn [fst snd srel omatch]; repeat split; auto.
+  - pose proof (gsim_clone s I) as H. destruct (it_clone s) as [c|].
+    + destruct H as [IC H]. rewrite H. cbn [fst snd srel omatch]. repeat split; auto.
     + rewrite H. cbn [fst snd srel omatch]. repeat split; auto.
 Qed.
 
@@ -323,6 +372,60 @@ Proof.
   pose proof (step_refines st cst o R0 R1 P1) as H.
   destruct (mstep rnd st o) as [st' x], (sstep rnd cst o) as [cst' y].
   destruct H as [H0 [H1 H2]]. constructor; [assumption|]. now apply IH.
+Qed.
+
+(* the documented loop on a text iterator: exactly the numbers up to the first element
+   that is no number; it ends with a conversion error there, else cleanly *)
+Definition isnum (e : elem) : bool := match e with EV _ | EUnset => true | _ => false end.
+Fixpoint str_numbers (l : list elem) : list (option fv) :=
+  match l with
+  | EV v :: r => Some v :: str_numbers r
+  | EUnset :: r => None :: str_numbers r
+  | _ => []
+  end.
+
+Lemma str_walk_gen : forall fuel s acc full rest fl, inv s -> abs s = CStr full rest fl ->
+  (length rest <= fuel)%nat -> rest <> [] ->
+  let '(l, e, s') := it_walk rnd fuel s acc in
+  l = rev acc ++ str_numbers rest /\ inv s' /\
+  (if forallb isnum rest then e = WDone else exists c, e = WConvErr c).
+Proof.
+  induction fuel as [|fuel IH]; intros s acc full rest fl I A LE NE.
+  - destruct rest; [contradiction|cbn in LE; lia].
+  - cbn [it_walk]. pose proof (gsim_value s I) as SV. destruct (it_value rnd s) as [v s1].
+    destruct SV as [I1 [A1 VM]]. rewrite A in A1, VM. destruct rest as [|x r]; [contradiction|].
+    cbn [IterSpec.s_value] in VM.
+    destruct v as [|c|c v0|b|b]; cbn [vmatch] in VM; try contradiction.
+    + subst x. cbn. rewrite app_nil_r. split; [reflexivity|]. split; [assumption|]. eauto.
+    + pose proof (gsim_advance s1 I1) as SA. destruct (it_advance rnd s1) as [c2 s2].
+      destruct SA as [I2 [a [SA AM]]]. rewrite A1 in SA.
+      assert (NX : isnum x = true) by (subst x; now destruct v0).
+      assert (SN : str_numbers (x :: r) = v0 :: str_numbers r) by (subst x; now destruct v0).
+      rewrite SN. cbn [forallb]. rewrite NX. cbn [andb].
+      destruct r as [|y r'].
+      * cbn [s_read s_advance] in SA. injection SA as <- SA2. cbn [amatch] in AM. subst c2.
+        cbn [Z.ltb Z.eqb Z.compare forallb str_numbers rev]. split; [reflexivity|]. split; [assumption|reflexivity].
+      * assert (RD : s_read (CStr full (x :: y :: r') fl) = CStr full (x :: y :: r') true).
+        { cbn [s_read]. subst x. now destruct v0. }
+        rewrite RD in SA. cbn [s_advance] in SA. injection SA as <- SA2. cbn [amatch] in AM.
+        destruct (Z.ltb_spec c2 0); [lia|]. destruct (Z.eqb_spec c2 0); [lia|].
+        specialize (IH s2 (v0 :: acc) full (y :: r') false I2 (eq_sym SA2)).
+        cbn [length] in LE. specialize (IH ltac:(cbn [length]; lia) ltac:(discriminate)).
+        destruct (it_walk rnd fuel s2 (v0 :: acc)) as [[l e] s']. destruct IH as [IH1 [IH2 IH3]].
+        split; [|split; assumption]. rewrite IH1. cbn [rev]. now rewrite <- app_assoc.
+    + subst x. cbn. rewrite app_nil_r. split; [reflexivity|]. split; [assumption|]. eauto.
+    + subst x. cbn. rewrite app_nil_r. split; [reflexivity|]. split; [assumption|]. eauto.
+Qed.
+
+Theorem text_walk_visits_exactly : forall fuel m p, inv_str m -> s_val m = Some p ->
+  (length (schain (s_text m) p) <= fuel)%nat ->
+  let '(l, e, s') := it_walk rnd fuel (SStr m) [] in
+  l = str_numbers (schain (s_text m) p) /\ inv s' /\
+  (if forallb isnum (schain (s_text m) p) then e = WDone else exists c, e = WConvErr c).
+Proof.
+  intros fuel m p I V LE.
+  pose proof (str_walk_gen fuel (SStr m) [] _ _ _ I (abs_str m)) as H. rewrite V in H.
+  exact (H LE (schain_nonempty _ _)).
 Qed.
 
 (* ---- freshly built sources satisfy the invariant and stand at the start of their sequence *)
